@@ -258,8 +258,11 @@ Open ==
        THEN LET g == Ev.geni  r == GetF(st.curRank, Ev.conn, 0) + 1 IN
             st' = [st EXCEPT !.opens = Bump(@, Ev.key),
                              !.popens = PutF(@, Ev.conn, GetF(@, Ev.conn, 0) + 1),
-                             !.rank = IF <<Ev.conn, g>> \in DOMAIN @ THEN @ ELSE @ @@ (<<Ev.conn, g>> :> r),
-                             !.curRank = IF <<Ev.conn, g>> \in DOMAIN st.rank THEN @ ELSE PutF(@, Ev.conn, r)]
+                             \* every successful open gets the next rank - also the re-open of an older configuration
+                             \* (the rollback of a failed multi-processor apply, a restart): "never back" is about the
+                             \* order of opens, not about generation numbers
+                             !.rank = PutF(@, <<Ev.conn, g>>, r),
+                             !.curRank = PutF(@, Ev.conn, r)]
             /\ UNCHANGED viol
      ELSE st' = [st EXCEPT !.opens = Bump(@, Ev.key)] /\ UNCHANGED viol
 
